@@ -359,7 +359,7 @@ def auto_unit(fb, tier, log):
     if not missing:
         return None
     hdrs = repo_headers()
-    key = _sha(hdrs + [EXTRACT, os.path.join(VERIF, "drivers", "inst.cpp"), os.path.join(VERIF, "rules", "autodrive.py")], "auto1")
+    key = _sha(hdrs + [EXTRACT, os.path.join(VERIF, "drivers", "inst.cpp"), os.path.join(VERIF, "rules", "autodrive.py")], "auto2")
     d = os.path.join(CACHE, "facts", "auto_" + key)
     allp = {}
     for u in fb.units:
@@ -371,7 +371,7 @@ def auto_unit(fb, tier, log):
         return None
     path = os.path.join(d, "inst_auto.json")
     if not os.path.exists(path):
-        flags = ["-std=c++17", "-I" + os.path.join(REPO, "gmlc"), "-UNDEBUG", "-DVP=0", "-ferror-limit=0"]
+        flags = ["-std=c++17", "-I" + os.path.join(REPO, "gmlc"), "-UNDEBUG", "-DVP=0", "-ferror-limit=0", "-ftemplate-backtrace-limit=0"]
         tmp = path + ".tmp.%d" % os.getpid()
         cmd = [EXTRACT, "-o", tmp, "--root", os.path.join(REPO, "gmlc"), src, "--"] + flags
         t0 = time.time()
